@@ -607,8 +607,8 @@ def table_configs(tier, seed):
             for rng_ in ((1, 3), (2, 5)):
                 cfgs.append({"transition": "random", "n": n, "h": h, "n_step_range": rng_})
             for depth in depths:
-                if depth == 4 and (n not in (5, 8) or len(cfgs) % 7):
-                    continue
+                if depth == 4:
+                    continue  # depth-4 trees are added separately below (311k executions/start)
                 for crit in criterion_specs(n, depth, seed, tier):
                     if depth >= 3 and crit[0] in ("bits",):
                         continue
@@ -622,6 +622,16 @@ def table_configs(tier, seed):
                             cfgs.append({"transition": "slice", "n": n, "h": h,
                                          "max_tree_depth": depth, "crit": crit,
                                          "extra_checks": extra, "max_delta_h": mdh})
+    if tier == "thorough":
+        # depth-4 trees: a handful of configurations (about 3e5 executions per start state)
+        for n, h in ((5, [0.0, 0.3, 1.1, 0.3, 0.0]), (8, [0.0, 1.1, 0.3, 0.0, 0.3, 5.0, 0.0, 1.1])):
+            for crit in (("never",), ("hash", 4242 + seed, 2)):
+                for extra in (True, False):
+                    cfgs.append({"transition": "multinomial", "n": n, "h": h,
+                                 "max_tree_depth": 4, "crit": crit, "extra_checks": extra,
+                                 "max_delta_h": "inf"})
+                cfgs.append({"transition": "slice", "n": n, "h": h, "max_tree_depth": 4,
+                             "crit": crit, "extra_checks": True, "max_delta_h": 2.0})
     # blocked edges: the integrator raises on one (undirected) edge of the ring, so trajectories
     # are cut short by integrator errors part-way through (symmetric in direction)
     for n in ([4, 5] if tier == "quick" else [3, 4, 5, 7]):
@@ -709,9 +719,10 @@ def run(tier, seed, acc):
     from mc.runner import pmap, N_WORKERS, HarnessError
 
     tcfgs = table_configs(tier, seed)
+    tcfgs.sort(key=lambda c: -(c.get("max_tree_depth") or 0))
     rcfgs = real_configs(tier, seed)
     # order by cost descending-ish and deal round-robin
-    nsh = N_WORKERS * 6
+    nsh = N_WORKERS * (6 if tier == "quick" else 40)
     jobs = [("table", tcfgs[i::nsh]) for i in range(nsh)] + \
            [("real", rcfgs[i::N_WORKERS]) for i in range(N_WORKERS)]
     jobs = [j for j in jobs if j[1]]
